@@ -581,6 +581,20 @@ def op_dataiter(st, op):
     it = giterators.DataIterator(data, **kw)
     passes = []
     peek_dirs = list(it.directives)
+    if op.get("abandon") is not None:
+        # an unfinished pass kept alive while a later complete pass runs, then dropped and collected
+        g = iter(it)
+        for _ in range(op["abandon"]):
+            try:
+                next(g)
+            except StopIteration:
+                break
+        feats = [fdict(f) for f in it]
+        d1 = list(it.directives)
+        del g
+        gc.collect()
+        return {"passes": [{"features": feats, "directives": d1}, {"features": feats, "directives": list(it.directives)}],
+                "peek_directives": peek_dirs, "dialect": it.dialect, "ledger": st.ledgers.get(led)}
     for _ in range(op.get("passes", 1)):
         feats = [fdict(f) for f in it]
         passes.append({"features": feats, "directives": list(it.directives)})
